@@ -46,6 +46,10 @@ type blockRec struct {
 	Lits   []byte
 	Err    error
 	Builds int // number of times the buffer content changed before this block (fills+shrinks+resets)
+	// SaEnd: for GSAP, the absolute end of the data on which the suffix
+	// array serving this block was built (model of gsap.sort: rebuilt when a
+	// block reaches beyond it, dropped by Shrink > 0 and Reset).
+	SaEnd int
 	// Fed is the stream since the last Reset at the time of the call (the
 	// positions above refer to it).
 	Fed []byte `json:"-"`
@@ -90,10 +94,12 @@ type parserExec struct {
 	readsAfterShrink              int
 	contentChanges                int
 
+	excludedD18                                  int
 	c11Blocks, c11MLM, c11Mixed, c11AfterRebuild int
 	c12Matches, c12AfterRebuild, c12AfterCut     int
 	runBlocks, runBlocksAfterShrink              int
 
+	saLen      int  // GSAP: buffer-relative extent of the current suffix array (model)
 	capFillXor byte // XORed into the fill byte of Reset slices' spare capacity
 
 	keepBlocks bool
@@ -344,6 +350,7 @@ func (x *parserExec) doShrink() {
 	}
 	x.off += d
 	if d > 0 {
+		x.saLen = 0
 		x.shrinkPos++
 		x.contentChanges++
 		if len(x.skippedRanges) > 0 {
@@ -384,6 +391,7 @@ func (x *parserExec) doReset(op POp) {
 	}
 	x.fed = append(x.fed[:0:0], op.Data...)
 	x.off, x.w = 0, 0
+	x.saLen = 0
 	x.resets++
 	x.contentChanges++
 	x.parsedSinceAdd = false
@@ -518,6 +526,9 @@ func (x *parserExec) doParse(op POp) {
 		x.results = append(x.results, []any{"parse", n, errName(err), cloneSeqs(seqs), string(lits)})
 	}
 	un := x.unparsed()
+	if n0 := minInt(x.cc.BlockSize, un); n0 > 0 && (x.w-x.off)+n0 > x.saLen {
+		x.saLen = x.buffered()
+	}
 	afterNil := len(x.skippedRanges) > 0
 	// Properties that own the stream position: after a Parse(nil) a
 	// mismatch is C14's finding, otherwise C01/C03's.
@@ -559,7 +570,7 @@ func (x *parserExec) doParse(op POp) {
 	x.parsedSinceAdd = true
 	if x.keepBlocks {
 		x.blocks = append(x.blocks, blockRec{W: x.w, N: n, Off: x.off, End: len(x.fed), Flags: op.Flags,
-			Seqs: cloneSeqs(seqs), Lits: cloneBytes(lits), Builds: x.contentChanges,
+			Seqs: cloneSeqs(seqs), Lits: cloneBytes(lits), Builds: x.contentChanges, SaEnd: x.off + x.saLen,
 			Fed: x.fed[:len(x.fed):len(x.fed)]})
 	}
 
